@@ -344,9 +344,26 @@ func ErrKind(err error) string {
 	return "other:" + err.Error()
 }
 
-// HashZ prints a SHA256 as the big-endian integer (bytes.Compare order = integer order).
+// HashZ prints the first 8 bytes of a SHA256 as a big-endian integer. For
+// hashes that differ in these bytes bytes.Compare order = integer order; the
+// callers check (DistinctPrefixes) that no two hashes of a case share them.
+// (Full 256-bit literals cost ~7 ms each to parse in Coq.)
 func HashZ(h cipher.SHA256) string {
-	return new(big.Int).SetBytes(h[:]).String()
+	return new(big.Int).SetBytes(h[:8]).String()
+}
+
+// DistinctPrefixes reports whether the 8-byte prefixes of the hashes are pairwise distinct.
+func DistinctPrefixes(hs []cipher.SHA256) bool {
+	seen := map[[8]byte]cipher.SHA256{}
+	for _, h := range hs {
+		var k [8]byte
+		copy(k[:], h[:8])
+		if o, ok := seen[k]; ok && o != h {
+			return false
+		}
+		seen[k] = h
+	}
+	return true
 }
 
 // Hours of an output at the node's head time.
@@ -383,4 +400,120 @@ func (w *World) keyIndexAddr(a cipher.Address) int {
 		}
 	}
 	return 0
+}
+
+// ---- transaction generator shared by the pool harnesses
+
+// SpendOpts selects the validity class of a generated transaction.
+type SpendOpts struct {
+	Fee        string // "min" | "rand" | "all" | "low" (soft) | "none" (soft)
+	NOut       int
+	Precision  bool   // soft: an output with more decimals than allowed
+	NullAddr   bool   // user constraint: an output to the null address
+	HoursExtra uint64 // hard: output hours exceed input hours by this much
+	CoinsDelta int64  // hard: outputs create (+) or destroy (-) this many droplets
+	ZeroCoin   bool   // hard: an output with zero coins
+	DupOut     bool   // hard: two identical outputs
+	Tx         TxOpts // signature / header mutations
+}
+
+// Spend builds a signed transaction over ins (looked up in the table for keys).
+func (w *World) Spend(ins coin.UxArray, headTime uint64, o SpendOpts) coin.Transaction {
+	r := w.R
+	var coinsIn, hoursIn uint64
+	var hs []cipher.SHA256
+	for _, ux := range ins {
+		coinsIn += ux.Body.Coins
+		hoursIn += HoursAt(ux, headTime)
+		hs = append(hs, ux.Hash())
+	}
+	minFee := (hoursIn + 9) / 10
+	feeH := minFee
+	switch o.Fee {
+	case "rand":
+		if hoursIn > minFee {
+			feeH = minFee + r.U64()%(hoursIn-minFee+1)
+		}
+	case "all":
+		feeH = hoursIn
+	case "low":
+		if minFee > 1 {
+			feeH = minFee - 1 - uint64(r.Intn(3))%(minFee-1)
+		} else {
+			feeH = 0
+		}
+	case "none":
+		feeH = 0
+	}
+	if feeH > hoursIn {
+		feeH = hoursIn
+	}
+	if o.HoursExtra > 0 {
+		feeH = 0
+	}
+	hoursOut := hoursIn - feeH + o.HoursExtra
+	coinsOut := coinsIn
+	if o.CoinsDelta > 0 {
+		coinsOut += uint64(o.CoinsDelta)
+	} else if uint64(-o.CoinsDelta) < coinsOut {
+		coinsOut -= uint64(-o.CoinsDelta)
+	}
+	nOut := o.NOut
+	if nOut < 1 {
+		nOut = 1
+	}
+	unit := uint64(1000)
+	for uint64(nOut) > coinsOut/unit && nOut > 1 {
+		nOut--
+	}
+	var outs []coin.TransactionOutput
+	cl, hl := coinsOut, hoursOut
+	for i := 0; i < nOut; i++ {
+		c, h := cl, hl
+		if i < nOut-1 {
+			c = (cl / uint64(nOut-i) / unit) * unit
+			if c == 0 {
+				c = unit
+			}
+			h = hl / uint64(nOut-i)
+		}
+		outs = append(outs, coin.TransactionOutput{Address: w.Addrs[r.Intn(NKeys-1)], Coins: c, Hours: h})
+		cl -= c
+		hl -= h
+	}
+	if o.Precision && outs[0].Coins > 1 {
+		// move a sub-unit amount from output 0 into a new output: both get too many decimals
+		d := uint64(1 + r.Intn(999))
+		if d >= outs[0].Coins {
+			d = 1
+		}
+		outs[0].Coins -= d
+		outs = append(outs, coin.TransactionOutput{Address: w.Addrs[1], Coins: d, Hours: 0})
+	}
+	outs = w.Uniq(outs)
+	if o.NullAddr {
+		outs[len(outs)-1].Address = cipher.Address{}
+	}
+	if o.ZeroCoin {
+		outs = append(outs, coin.TransactionOutput{Address: w.Addrs[2], Coins: 0, Hours: 0})
+	}
+	if o.DupOut {
+		outs = append(outs, outs[0])
+	}
+	return w.BuildTxn(hs, outs, o.Tx)
+}
+
+// PredictOutputs adds the outputs txn would create to the table (so that a
+// later transaction spending them can be signed) and returns their ids.
+func (w *World) PredictOutputs(head coin.BlockHeader, t coin.Transaction) []cipher.SHA256 {
+	var ids []cipher.SHA256
+	for _, ux := range coin.CreateUnspents(head, t) {
+		h := ux.Hash()
+		if _, ok := w.Ux[h]; !ok {
+			w.Ux[h] = ux
+		}
+		w.ID(h)
+		ids = append(ids, h)
+	}
+	return ids
 }
